@@ -15,6 +15,14 @@ def describe(e):
     return str(core.compact(d))
 
 
+HARD_RESIDUES = {
+    2147483713: [(1692649591, 28), (1923060350, 25), (265567943, 24), (853789258, 24)],
+    2305843009213694009: [(1566086038193959442, 24)],
+    2 ** 224 - 2 ** 96 + 1: [(21848234141828642470625807025104022119869559184651327436190946813642, 20),
+                             (26152053517504187957302394740219979535537668094624101494021626637942, 20)],
+}
+
+
 def run(ctx):
     core.import_ecdsa()
     from ecdsa import numbertheory as nt, curves
@@ -107,6 +115,17 @@ def run(ctx):
                             ctx.violation("square_root_mod_prime raised %s for a non-residue" % type(e).__name__, {"a": nr, "p": m})
                         break
         ctx.nontrivial.add(("big", m))
+    # residues for which the p = 1 (mod 8) branch needs a LATE auxiliary value: b^2 - 4a is a residue for every b below the given
+    # bound (found once by search with Euler's criterion; inputs only - the verdict is TLC's identity r^2 = a + q p)
+    for m, hard in HARD_RESIDUES.items():
+        for sq, first_b in hard:
+            try:
+                r = int(nt.square_root_mod_prime(sq, m))
+            except BaseException:  # noqa
+                r = m
+            events.append({"op": "big-sqrt", "a": n2l(sq), "p": n2l(m), "out": n2l(r), "q": n2l((r * r - sq) // m if r * r >= sq else 0),
+                           "cls": "1mod8"})
+            ctx.nontrivial.add(("hard-sqrt", m, sq))
     # the same residue inverted under different moduli back to back, small and production size
     for a in (2, 3, 5, 7, 255, 65537):
         for m in [11, 13, 257, 101, 46337, 9973] * 2:
